@@ -128,6 +128,393 @@ func genChainScenario(t *rapid.T) universe.Scenario {
 	}
 }
 
+// snVer is a version "maj.min.0" of the shared-node family.
+type snVer struct{ maj, min int }
+
+func (v snVer) String() string { return fmt.Sprintf("%d.%d.0", v.maj, v.min) }
+
+// genSNVersions draws n ascending versions starting at 1.0.0; every step bumps the major
+// version (two times out of three) or the minor version.
+func genSNVersions(t *rapid.T, n int, label string) []snVer {
+	out := []snVer{{1, 0}}
+	for len(out) < n {
+		last := out[len(out)-1]
+		if rapid.IntRange(0, 2).Draw(t, label+".step") == 0 {
+			out = append(out, snVer{last.maj, last.min + 1})
+		} else {
+			out = append(out, snVer{last.maj + 1, 0})
+		}
+	}
+	return out
+}
+
+// snReqForms lists npm requirement spellings that match exactly the versions vs[j..h] of a
+// package whose versions are vs: exact pins, tildes, carets, upper bounds, two-sided ranges,
+// open lower bounds and the star.
+func snReqForms(vs []snVer, j, h int) []string {
+	n := len(vs)
+	s := func(i int) string { return vs[i].String() }
+	var f []string
+	if j == h {
+		f = append(f, s(h), "~"+s(h))
+	}
+	last := j
+	for last+1 < n && vs[last+1].maj == vs[j].maj {
+		last++
+	}
+	if last == h {
+		f = append(f, "^"+s(j))
+	}
+	if j == 0 {
+		f = append(f, "<="+s(h))
+		if h+1 < n {
+			f = append(f, "<"+s(h+1))
+		}
+	}
+	f = append(f, ">="+s(j)+" <="+s(h))
+	if h+1 < n {
+		f = append(f, ">="+s(j)+" <"+s(h+1))
+	}
+	if h == n-1 {
+		f = append(f, ">="+s(j))
+		if j == 0 {
+			f = append(f, "*")
+		}
+	}
+	return f
+}
+
+func drawSNReq(t *rapid.T, vs []snVer, j, h int, label string) string {
+	return rapid.SampledFrom(snReqForms(vs, j, h)).Draw(t, label)
+}
+
+// genSharedNodeScenario builds an npm universe in which several advisories with different
+// fixed versions hit ONE graph node of a transitive package, so that the concurrent relax
+// attempts for them work on one shared dependency subgraph.
+//
+//   - 1..2 vulnerable packages with 3..5 versions; the manifest resolves each to a low version
+//     V[r]; 2..3 advisories each, all affecting V[r], with pairwise different fixed versions
+//     (introduced at 0 or at a version <= V[r], so the ranges overlap; now and then the
+//     vulnerability comes back in a later version).
+//   - 2..3 direct dependencies (each with 2..4 versions, some reaching the vulnerable package
+//     through a wrapper package of their own). Of the direct dependencies that reach a
+//     vulnerable package, the one the resolver visits first pins it to V[r] (exact pin, tilde,
+//     caret or an upper bound whose best match is V[r]); the others accept V[r] but have a
+//     higher best match: the best match of one of them lies between the lowest and the highest
+//     fixed version, so that path is constraining for the advisories with the higher fixed
+//     versions only, while the pinning path is constraining for all of them.
+//   - later versions of the direct dependencies move their pins and bounds upwards (or drop
+//     the dependency), so relaxing different direct dependencies fixes different subsets.
+//   - variants: the manifest itself pins the vulnerable package (then the root has a direct
+//     edge to the node); an advisory against the next version of a direct dependency
+//     (follow-up attempts); one direct dependency whose upgrades are restricted.
+func genSharedNodeScenario(t *rapid.T) universe.Scenario {
+	nD := rapid.IntRange(2, 3).Draw(t, "sn.direct_deps")
+	depNames := []string{"alpha", "bravo", "charlie"}[:nD]
+	vulnNames := []string{"vlib"}
+	if rapid.IntRange(0, 2).Draw(t, "sn.two_vuln_pkgs") == 0 {
+		vulnNames = append(vulnNames, "wlib")
+	}
+
+	type snDep struct {
+		name    string
+		vers    []snVer
+		sel     int                 // index of the version the manifest selects
+		wrapped bool                // reaches the vulnerable packages through "mid<name>"
+		reqs    map[int][]string    // version index -> requirement lines "pkg@req"
+		hi      map[string]int      // per vulnerable package: best-match index of the latest version handled
+		reaches map[string]struct{} // vulnerable packages this dependency requires
+	}
+	deps := make([]*snDep, nD)
+	var mdeps []universe.Requirement
+	for i, name := range depNames {
+		d := &snDep{name: name, reqs: map[int][]string{}, hi: map[string]int{}, reaches: map[string]struct{}{}}
+		d.vers = genSNVersions(t, rapid.IntRange(2, 4).Draw(t, name+".versions"), name)
+		d.sel = rapid.IntRange(0, len(d.vers)-2).Draw(t, name+".selected")
+		d.wrapped = rapid.IntRange(0, 9).Draw(t, name+".wrapped") < 3
+		deps[i] = d
+		mdeps = append(mdeps, universe.Requirement{Name: name,
+			Req: drawSNReq(t, d.vers, rapid.IntRange(0, d.sel).Draw(t, name+".req_from"), d.sel, name+".req")})
+	}
+
+	var vulns []universe.OSV
+	var schema []string
+	nextID := 1
+	for _, p := range vulnNames {
+		n := rapid.IntRange(3, 5).Draw(t, p+".versions")
+		vs := genSNVersions(t, n, p)
+		r := rapid.IntRange(0, n-3).Draw(t, p+".resolved")
+		// advisories: pairwise different fixed versions above V[r]
+		var cand []int
+		for i := r + 1; i < n; i++ {
+			cand = append(cand, i)
+		}
+		nAdv := rapid.IntRange(2, min(3, len(cand))).Draw(t, p+".advisories")
+		var fixed []int
+		for len(fixed) < nAdv {
+			k := rapid.IntRange(0, len(cand)-1).Draw(t, p+".fixed")
+			fixed = append(fixed, cand[k])
+			cand = append(cand[:k], cand[k+1:]...)
+		}
+		fLo, fHi := fixed[0], fixed[0]
+		for _, f := range fixed {
+			fLo, fHi = min(fLo, f), max(fHi, f)
+		}
+		for _, f := range fixed {
+			evs := []universe.OSVEvent{{Introduced: "0"}}
+			if from := rapid.IntRange(-1, r).Draw(t, p+".introduced"); from >= 0 {
+				evs[0].Introduced = vs[from].String()
+			}
+			evs = append(evs, universe.OSVEvent{Fixed: vs[f].String()})
+			if f+1 < n && rapid.IntRange(0, 6).Draw(t, p+".comes_back") == 0 {
+				evs = append(evs, universe.OSVEvent{Introduced: vs[rapid.IntRange(f+1, n-1).Draw(t, p+".back_at")].String()})
+			}
+			vulns = append(vulns, universe.OSV{ID: fmt.Sprintf("SN-2024-%d", nextID), Affected: []universe.OSVAffected{{
+				Package: universe.OSVPackage{Ecosystem: "npm", Name: p},
+				Ranges:  []universe.OSVRange{{Type: "SEMVER", Events: evs}},
+			}}})
+			nextID++
+		}
+		// which direct dependencies reach the package (at least two)
+		reach := deps
+		if nD == 3 {
+			switch rapid.IntRange(0, 4).Draw(t, p+".reached_by") {
+			case 0:
+				reach = []*snDep{deps[0], deps[1]}
+			case 1:
+				reach = []*snDep{deps[0], deps[2]}
+			case 2:
+				reach = []*snDep{deps[1], deps[2]}
+			}
+		}
+		rootPins := rapid.IntRange(0, 6).Draw(t, p+".root_pins") == 0
+		if rootPins {
+			// the root's own requirements are resolved before any dependency's
+			mdeps = append(mdeps, universe.Requirement{Name: p, Req: drawSNReq(t, vs, rapid.IntRange(0, r).Draw(t, p+".root_from"), r, p+".root_req")})
+		}
+		for di, d := range reach {
+			d.reaches[p] = struct{}{}
+			for k := range d.vers {
+				lbl := fmt.Sprintf("%s.%s.%d", d.name, p, k)
+				var j, h int
+				switch {
+				case k < d.sel:
+					// versions below the selected one: anything
+					h = rapid.IntRange(0, n-1).Draw(t, lbl+".h")
+					j = rapid.IntRange(0, h).Draw(t, lbl+".j")
+				case k == d.sel && di == 0 && !rootPins:
+					// visited first: decides the version, V[r]
+					h, j = r, rapid.IntRange(0, r).Draw(t, lbl+".j")
+				case k == d.sel && (di == 1 || (di == 0 && rootPins)):
+					// accepts V[r]; constraining only for the advisories fixed above its best match
+					h, j = rapid.IntRange(fLo, fHi-1).Draw(t, lbl+".h"), rapid.IntRange(0, r).Draw(t, lbl+".j")
+				case k == d.sel:
+					h, j = rapid.IntRange(r, n-1).Draw(t, lbl+".h"), rapid.IntRange(0, r).Draw(t, lbl+".j")
+				default:
+					// later versions: pins and bounds move upwards, or the dependency goes away
+					if rapid.IntRange(0, 6).Draw(t, lbl+".dropped") == 0 {
+						continue
+					}
+					h = rapid.IntRange(d.hi[p], n-1).Draw(t, lbl+".h")
+					j = h
+					if rapid.IntRange(0, 2).Draw(t, lbl+".range") == 0 {
+						j = rapid.IntRange(0, h).Draw(t, lbl+".j")
+					}
+				}
+				if k >= d.sel {
+					d.hi[p] = h
+				}
+				d.reqs[k] = append(d.reqs[k], fmt.Sprintf("%s@%s", p, drawSNReq(t, vs, j, h, lbl+".req")))
+			}
+		}
+		schema = append(schema, p)
+		for _, v := range vs {
+			schema = append(schema, "  "+v.String())
+		}
+	}
+	for _, d := range deps {
+		schema = append(schema, d.name)
+		for k, v := range d.vers {
+			schema = append(schema, "  "+v.String())
+			if d.wrapped {
+				schema = append(schema, fmt.Sprintf("    mid%s@%s", d.name, v))
+				continue
+			}
+			for _, r := range d.reqs[k] {
+				schema = append(schema, "    "+r)
+			}
+		}
+		if d.wrapped {
+			schema = append(schema, "mid"+d.name)
+			for k, v := range d.vers {
+				schema = append(schema, "  "+v.String())
+				for _, r := range d.reqs[k] {
+					schema = append(schema, "    "+r)
+				}
+			}
+		}
+	}
+	// now and then the version a relaxation of a direct dependency reaches is vulnerable
+	// itself: follow-up attempts next to the attempts that share a node
+	if rapid.IntRange(0, 3).Draw(t, "sn.dep_advisory") == 0 {
+		d := deps[rapid.IntRange(0, nD-1).Draw(t, "sn.dep_advisory.dep")]
+		evs := []universe.OSVEvent{{Introduced: d.vers[d.sel+1].String()}}
+		if d.sel+2 < len(d.vers) {
+			evs = append(evs, universe.OSVEvent{Fixed: d.vers[d.sel+2].String()})
+		}
+		vulns = append(vulns, universe.OSV{ID: fmt.Sprintf("SN-2024-%d", nextID), Affected: []universe.OSVAffected{{
+			Package: universe.OSVPackage{Ecosystem: "npm", Name: d.name},
+			Ranges:  []universe.OSVRange{{Type: "SEMVER", Events: evs}},
+		}}})
+	}
+	levels := universe.Levels{Default: "major"}
+	if rapid.IntRange(0, 5).Draw(t, "sn.restricted") == 0 {
+		levels.Packages = map[string]string{
+			depNames[rapid.IntRange(0, nD-1).Draw(t, "sn.restricted.dep")]: rapid.SampledFrom([]string{"minor", "none"}).Draw(t, "sn.restricted.level"),
+		}
+	}
+	return universe.Scenario{
+		Universe: universe.Universe{System: universe.NPM, Schema: schema},
+		Manifest: universe.Manifest{System: universe.NPM, Name: "verif-root", Version: "1.0.0", Deps: mdeps},
+		Vulns:    vulns,
+		Levels:   levels,
+	}
+}
+
+// sharedNodeClasses describes, from the resolved graph of the manifest, how the generated
+// scenario exercises patch attempts that share one dependency subgraph: advisories with
+// different fixed versions on one node, the node reached through several direct
+// dependencies, the paths to it constraining for different advisories, the root without an
+// edge of its own to the node.
+func sharedNodeClasses(w *universe.World, path string, ro options.RemediationOptions) []string {
+	ctx := context.Background()
+	g, err := w.Resolve(ctx, path, ro.ResolutionOptions)
+	if err != nil || len(g.Nodes) == 0 {
+		return nil
+	}
+	eco := universe.Ecosystem(w.Scenario.Universe.System)
+	adj := make([][]resolve.NodeID, len(g.Nodes))
+	var directs []resolve.NodeID
+	for _, e := range g.Edges {
+		if e.From == 0 {
+			directs = append(directs, e.To)
+			continue
+		}
+		adj[e.From] = append(adj[e.From], e.To)
+	}
+	reachedBy := make([]map[resolve.NodeID]bool, len(g.Nodes)) // node -> direct dependencies that reach it
+	for _, d := range directs {
+		seen := map[resolve.NodeID]bool{}
+		stack := []resolve.NodeID{d}
+		for len(stack) > 0 {
+			x := stack[len(stack)-1]
+			stack = stack[:len(stack)-1]
+			if x == 0 || seen[x] {
+				continue
+			}
+			seen[x] = true
+			if reachedBy[x] == nil {
+				reachedBy[x] = map[resolve.NodeID]bool{}
+			}
+			reachedBy[x][d] = true
+			stack = append(stack, adj[x]...)
+		}
+	}
+	set := map[string]bool{}
+	for i, nd := range g.Nodes {
+		if i == 0 {
+			continue
+		}
+		name, ver := nd.Version.Name, nd.Version.Version
+		p, ok := w.Index.Package(name)
+		if !ok {
+			continue
+		}
+		at := -1
+		for k, v := range p.Versions {
+			if v.Version == ver {
+				at = k
+			}
+		}
+		if at < 0 {
+			continue
+		}
+		// the advisories on this node and the first clean version above it, per advisory
+		var recs []universe.OSV
+		fixAt := map[int]bool{}
+		for _, r := range w.Scenario.Vulns {
+			if !universe.Affected(r, eco, name, ver) {
+				continue
+			}
+			recs = append(recs, r)
+			f := len(p.Versions)
+			for k := at + 1; k < len(p.Versions); k++ {
+				if !universe.Affected(r, eco, name, p.Versions[k].Version) {
+					f = k
+					break
+				}
+			}
+			fixAt[f] = true
+		}
+		if len(recs) < 2 || len(fixAt) < 2 {
+			continue
+		}
+		set["patch_two_vulns_one_node"] = true
+		if len(recs) >= 3 && len(fixAt) >= 3 {
+			set["patch_three_vulns_one_node"] = true
+		}
+		twoDirects := len(reachedBy[i]) >= 2
+		if twoDirects {
+			set["patch_node_reached_by_two_direct_deps"] = true
+		}
+		// per advisory: the parent edges whose best match is still affected ("constraining")
+		rootEdge := false
+		constr := make([]string, len(recs))
+		for _, e := range g.Edges {
+			if e.To != resolve.NodeID(i) {
+				continue
+			}
+			if e.From == 0 {
+				rootEdge = true
+			}
+			vk := nd.Version
+			vk.Version, vk.VersionType = e.Requirement, resolve.Requirement
+			mv, err := w.Oracle.MatchingVersions(ctx, vk)
+			for k, r := range recs {
+				if err != nil || len(mv) == 0 || universe.Affected(r, eco, name, mv[len(mv)-1].Version) {
+					constr[k] += fmt.Sprintf("%d,", e.From)
+				} else {
+					constr[k] += "-,"
+				}
+			}
+		}
+		differ := false
+		for k := 1; k < len(constr); k++ {
+			if constr[k] != constr[0] && strings.Trim(constr[k], "-,") != "" && strings.Trim(constr[0], "-,") != "" {
+				differ = true
+			}
+		}
+		if differ {
+			set["patch_shared_node_paths_constrain_per_advisory"] = true
+		}
+		if !rootEdge {
+			set["patch_shared_node_without_root_edge"] = true
+		} else {
+			set["patch_shared_node_with_root_edge"] = true
+		}
+		if twoDirects && differ && !rootEdge {
+			// some attempt keeps a proper part of the subgraph the attempts share
+			set["patch_shared_subgraph_pruned_differently"] = true
+		}
+	}
+	var out []string
+	for k := range set {
+		out = append(out, k)
+	}
+	sort.Strings(out)
+	return out
+}
+
 func genC16Patch(t *rapid.T) c16PatchCase {
 	c := genC16PatchScenario(t)
 	if rapid.IntRange(0, 3).Draw(t, "fail_versions") == 0 {
@@ -150,8 +537,15 @@ func genC16Patch(t *rapid.T) c16PatchCase {
 }
 
 func genC16PatchScenario(t *rapid.T) c16PatchCase {
-	if rapid.IntRange(0, 2).Draw(t, "chain") == 0 {
-		c := c16PatchCase{Scenario: genChainScenario(t)}
+	// a quarter of the cases each: chains of follow-up attempts, advisories sharing one graph
+	// node; the other half: general universes
+	if fam := rapid.IntRange(0, 3).Draw(t, "family"); fam <= 1 {
+		var c c16PatchCase
+		if fam == 0 {
+			c.Scenario = genChainScenario(t)
+		} else {
+			c.Scenario = genSharedNodeScenario(t)
+		}
 		n := rapid.IntRange(4, 12).Draw(t, "n_choices")
 		for i := 0; i < n; i++ {
 			c.Choices = append(c.Choices, rapid.IntRange(0, 5).Draw(t, "choice"))
@@ -374,6 +768,8 @@ func propC16Patch(c c16PatchCase) (ev.Outcome, error) {
 	if len(ids) < 1 {
 		return o, nil
 	}
+	shared := sharedNodeClasses(w, path, mkOpts())
+	o.Classes = append(o.Classes, shared...)
 	// the list is sorted by Patch.Compare and holds no two patches that compare equal
 	sys := w.System.Semver()
 	for i := 1; i < len(ref); i++ {
@@ -409,6 +805,18 @@ func propC16Patch(c c16PatchCase) (ev.Outcome, error) {
 		// parallel mode: real concurrency for the race detector
 		scheds = append(scheds, c16Schedule{Perm: perms[len(perms)-1], Choices: c.Choices, Parallel: len(ids)})
 		scheds = append(scheds, c16Schedule{Perm: perms[0], Choices: c.Choices, Parallel: 2})
+		if len(ids) >= 2 && len(shared) > 0 {
+			// attempts for several advisories on one graph node work on one shared subgraph:
+			// the opposite release orders as well (perms[0] is the identity, the last one of the
+			// enumeration / perms[1] of the sample its reverse), so that every pair of attempts
+			// starts in both orders in both parallel modes
+			rev := perms[len(perms)-1]
+			if len(ids) > 4 {
+				rev = perms[1]
+			}
+			scheds = append(scheds, c16Schedule{Perm: perms[0], Choices: c.Choices, Parallel: len(ids)})
+			scheds = append(scheds, c16Schedule{Perm: rev, Choices: c.Choices, Parallel: 2})
+		}
 	}
 	for _, s := range scheds {
 		r := runSchedule(w, cl, path, mkOpts(), ids, s)
